@@ -39,6 +39,15 @@ def check(ctx):
             o.refute(s, s.node, 'id.setter', "Task.id has a setter")
     ctx.guarded(o, immut)
 
+    o = ctx.ob('attach_only_through_setters', 'R1',
+               "parent/children state and the list shared with the children facade are written only inside the owner set: every way of "
+               "attaching a task passes the id checks of the two setters (shared rule with C01)", floor=20)
+
+    def own(o):
+        from . import c01
+        c01.own(ctx, o, eff)
+    ctx.guarded(o, own)
+
     o = ctx.ob('check_precedes_attach_parent', 'R3',
                "parent setter: a detached task (sub)tree is checked with _has_id_intersection(new parent, [task]) before any relation write, "
                "skipped only when the parent object is unchanged; an attached task may only move inside its own WBS", floor=2)
@@ -122,6 +131,13 @@ def parent_mode(ctx, o, eff):
                 break
             unk.append(u)
         if unk is None:
+            continue
+        by_id = [u for u in unk if any(isinstance(n, ast.Compare) and any(isinstance(x, ast.Attribute) and x.attr == 'id'
+                                                                         for x in [n.left] + list(n.comparators)) for n in ast.walk(u))]
+        if by_id:
+            o.refute(f, g.node, 'id check skipped by comparing ids', f"the id check is skipped under `{src(by_id[0])[:90]}`, a condition that compares task "
+                                                                      f"IDS: equal ids are exactly what must not be trusted here (two trees whose roots "
+                                                                      f"share an id are taken for one tree)")
             continue
         if bad or unk:
             o.undecided(f, g.node, g.node, "id check under extra conditions: " + ', '.join(list(bad) + [src(u) for u in unk]))
@@ -351,6 +367,19 @@ def lookup(ctx, o):
                     found = True
     if not found:
         o.undecided(f, f.node, '__getitem__', "lookup in an unrecognised form")
+    else:
+        # every value returned must be the result of that search (a remembered task can go stale)
+        from sa.flow import Expander as _Ex
+        ex = _Ex(prog, f, ctx.typer, inline=False)
+        for r in [n for n in walk_no_nested(f.node) if isinstance(n, ast.Return) and n.value is not None]:
+            v = ex.expand(r.value)
+            if not (isinstance(v, ast.Call) and isinstance(v.func, ast.Name) and v.func.id == 'next'):
+                o.refute(f, r, r, f"WBS[id] can return `{src(r.value)}` which is not the result of the search over the current members "
+                                  f"(a cached entry goes stale when the task is removed or moves to another WBS)")
+        from sa.effects import Effects as _Eff
+        for w in _Eff(prog, ctx.typer, ctx.cg).direct_writes(f):
+            if w.root == 'self':
+                o.refute(f, w.node, w.node, f"lookup keeps state on the WBS ({unmangle(w.field)})")
     tries = [n for n in walk_no_nested(f.node) if isinstance(n, ast.Try)]
     ok = False
     for t in tries:
